@@ -294,6 +294,9 @@ func run(prop string, plan Plan, tier string) int {
 		for _, j := range jrns {
 			dst := filepath.Join(repDir, strings.TrimSuffix(filepath.Base(j), ".journal.json")+"-crash.json")
 			b, _ := os.ReadFile(j)
+			if len(strings.TrimSpace(string(b))) == 0 {
+				continue // the case had finished
+			}
 			_ = os.WriteFile(dst, b, 0o644)
 			reps = append(reps, dst)
 		}
